@@ -34,6 +34,75 @@ def js_of_tmpl(t):
     raise ValueError(k)
 
 
+POST_ENDPOINT = "http://verif.post/"      # the harness replaces it by the URL of the history's recording server
+
+
+def post_action(code, subvars=None, opts=None, text=None):
+    """An action with an HTTP endpoint (template {"t":"post"}; js_of_tmpl is for JavaScript only): the real code POSTs
+    {"bindings", "opts", "code"} to the endpoint; `code` is the JSON template (the action carries its JSON text), substituted
+    when `subvars` is true or absent (CleanAction's default). `text`: a code string that is not JSON (then `code` is ignored)."""
+    t = {"t": "post", "code": code, "subvars": subvars is not False}
+    a = {"endpoint": POST_ENDPOINT, "code": text if text is not None else json.dumps(code), "verif_tmpl": t}
+    if text is not None:
+        t["badjson"] = True
+    if subvars is not None:
+        a["subvars"] = subvars
+    if opts is not None:
+        a["opts"] = opts; t["opts"] = opts
+    return a
+
+
+def is_post(a):
+    return isinstance(a, dict) and isinstance(a.get("verif_tmpl"), dict) and a["verif_tmpl"].get("t") == "post"
+
+
+NAKED_RE = re.compile(r"^\?[_a-zA-Z][_0-9a-zA-Z]*$")
+
+def subst_frag(t):
+    """RulioModel/Subst.lean `substFrag`: every string is a naked variable or has no `?`; no key has a `?`."""
+    if isinstance(t, str):
+        return bool(NAKED_RE.match(t)) or "?" not in t
+    if isinstance(t, list):
+        return all(subst_frag(x) for x in t)
+    if isinstance(t, dict):
+        return all("?" not in k and subst_frag(v) for k, v in t.items())
+    return True
+
+
+def py_subst(t, bs, dflt="undefined"):
+    """`substD` on the fragment, read off actions.go independently of the Lean text: a string that is a key of the bindings
+    is replaced by the bound value, an unbound naked variable by the control's default value (KeyError when there is none),
+    everything else is left alone."""
+    if isinstance(t, str):
+        if t in bs:
+            return bs[t]
+        if NAKED_RE.match(t):
+            if dflt is None:
+                raise KeyError(t)
+            return dflt
+        return t
+    if isinstance(t, list):
+        return [py_subst(x, bs, dflt) for x in t]
+    if isinstance(t, dict):
+        return {k: py_subst(v, bs, dflt) for k, v in t.items()}
+    return t
+
+
+def post_body(a, bs, no_default=False):
+    """The body a post action sends under the bindings `bs` (None: the action fails before anything is sent)."""
+    t = a["verif_tmpl"]
+    if a.get("subvars") is False:
+        code = a["code"]
+    elif t.get("badjson"):
+        return None
+    else:
+        try:
+            code = py_subst(t["code"], bs, None if no_default else "undefined")
+        except KeyError:
+            return None
+    return {"bindings": bs, "opts": a.get("opts"), "code": code}
+
+
 def code_term(rng, vars_):
     r = rng.random()
     names = [v[1:] for v in vars_ if v.startswith("?") and len(v) > 1]
@@ -219,7 +288,11 @@ def canon_tree(t, with_acts=True):
             acts = multiset([{"ok": a.get("ok"), "value": a.get("value") if a.get("ok") else None} for a in c.get("acts") or []]) if with_acts else []
             conds.append(canon({"bs": c.get("bs"), "err": c.get("err"), "acts": acts}))
         rules.append(canon({"id": r["id"], "bss": multiset([strip_builtin(b) for b in r.get("bss") or []]), "conds": sorted(conds)}))
-    return {"err": t.get("err"), "rules": sorted(rules), "values": multiset(t.get("values") or [])}
+    out = {"err": t.get("err"), "rules": sorted(rules), "values": multiset(t.get("values") or [])}
+    if t.get("posts"):
+        # bodies received by the recording server during the event (absent or empty on both sides = equal)
+        out["posts"] = multiset(t["posts"])
+    return out
 
 
 def canon_out(op, out):
